@@ -40,6 +40,13 @@ def refresh():
 
 
 def run_demo(binary, demo):
+    rs = demo.parent / "run.sh"
+    if rs.exists():         # a demonstration that needs a directory layout around the script: `run.sh <binary>` prints what it sees
+        try:
+            p = subprocess.run(["sh", str(rs), str(binary)], stdout=subprocess.PIPE, stderr=subprocess.PIPE, timeout=60, cwd=str(demo.parent))
+        except subprocess.TimeoutExpired:
+            return {"stdout": "", "stderr": "", "status": "timeout"}
+        return {"stdout": p.stdout.decode(errors="replace"), "stderr": p.stderr.decode(errors="replace"), "status": p.returncode, "via": "run.sh"}
     try:
         p = subprocess.run([str(binary), str(demo)], stdout=subprocess.PIPE, stderr=subprocess.PIPE, timeout=10, cwd=str(demo.parent))
     except subprocess.TimeoutExpired:
@@ -123,7 +130,7 @@ def main():
         d.mkdir(parents=True, exist_ok=True)
         if patch.resolve() != (d / "patch.diff").resolve():
             shutil.copy(patch, d / "patch.diff")
-        for f in ("demo.sd", "demo.txt"):
+        for f in ("demo.sd", "demo.txt", "run.sh", "demo2.sd", "demo-variant.sd"):
             if (mut / f).exists() and (mut / f).resolve() != (d / f).resolve():
                 shutil.copy(mut / f, d / f)
         (d / "meta.json").write_text(json.dumps(meta, indent=1))
